@@ -14,6 +14,7 @@ CONSTANTS
  WithScan = FALSE
  AllowClose = TRUE
  Dev = {}
+ StartTs = 1
  MaxHist = 0
 VIEW view
 SYMMETRY Sym
